@@ -143,6 +143,11 @@ func (m *module) loadModule(proj *Project, rawLabel string) (starlark.StringDict
 	}
 	label, _ = label.RelativeTo(m.label.Package)
 	label.Kind = "module"
+	if label.Name == "" {
+		// A label without a name refers to the package's BUILD.dawn. Name the file explicitly so that the module is
+		// registered under the same key as the one used by the package loader and is only loaded once.
+		label.Name = "BUILD.dawn"
+	}
 
 	m.dependencies = append(m.dependencies, label.String())
 	return proj.loadModule(m, label)
